@@ -37,6 +37,18 @@ CHECKS = {
             "Order.tla is model-checked at small scope; dt_dcmp and dt_d_in_range_p are compared with the chain index order for day pairs "
             "and triples in all 9 notations; dtest exit codes and dsort outputs (permutation + order, -r) are validated by OrderTrace.tla",
             "pairs/triples are windows + seeded far pairs (not all 10^11); same notation on both sides; sort ties in any order", "5 C08"),
+    "C12": ("model_checking", "TLA+ ZoneSem/ZoneImpl model-checked (Refines, CacheInv, Progress; pinned mechanism and index truncation as negative controls); synthetic TZif replay; all installed zones traced and validated by ZoneTrace",
+            "ZoneImpl.tla (bisection + range cache, one action per loop step) is model-checked to refine ZoneSem.tla for every table <=3|4 "
+            "transitions and every history of <=2|3 queries; every model table is written as a synthetic TZif file (v1/v2/v3) and every "
+            "history replayed; every installed zone (independent TZif reader) is queried at every transition -1/0/+1 s, both ends and far "
+            "beyond in three orders plus local->UTC and zone-range queries, all events validated by ZoneTrace.tla",
+            "installed zoneinfo = meaning of 'the zone file'; nothing judged before the first listed transition; quick tier samples a third "
+            "of the zones (all extreme ones) and caps instants per zone", "5 C12"),
+    "C14": ("model_checking", "TLA+ Leaps (table laws) and Bisect (refinement, Progress, pinned loop refuted) model-checked; Bisect cases replayed on leaps_before_*; TAI/GPS/%rS/rs events validated by LeapsTrace",
+            "Leaps.tla over the frozen table and Bisect.tla are model-checked; every Bisect state is replayed on the four leaps_before "
+            "functions; TAI/GPS offsets at every entry +-2 s, yearly to 4094, at the 2^31/2^32 boundaries and seeded, real-second differences "
+            "of ordered pairs in both orders and real-second additions across every inserted second are validated by LeapsTrace.tla",
+            "LeapTab.tla is a frozen copy of lib/leap-seconds.list; differences only for |d| < 2^31 s (beyond: known finding); operands equal to 23:59:60 not used", "5 C14"),
 }
 NOT_APPLICABLE = []
 
